@@ -24,6 +24,16 @@ Theorem c13_cat_ack_applied_once : forall tries bases cuts front k d s now s',
 Proof. exact cat_ack_applied_once. Qed.
 Print Assumptions c13_cat_ack_applied_once.
 
+(* an unconditional set MAY be resubmitted: for every number of tries and every cut plan the
+   backend ends up holding what it held or what one set leaves (a set applied twice is a set
+   applied once), and an acknowledged set was applied - the "transparent retry" of C13 *)
+Theorem c13_set_retry_exact : forall resend_cat tries bases cuts k d f ttl s now s' r,
+  do_request resend_cat tries bases cuts (HSet MSet k d f ttl) s now = (s', r) ->
+  (store_eq s' s \/ store_eq s' (b_put s now k d f ttl)) /\
+  (r = HDone -> store_eq s' (b_put s now k d f ttl)).
+Proof. intros rc tries bases cuts k d f ttl s now s' r H. eapply set_retry_exact; [left; intros x; reflexivity | exact H]. Qed.
+Print Assumptions c13_set_retry_exact.
+
 (* the retry loop as it stood before the fix (append/prepend resubmitted like everything else):
    a cut after the backend applied the request, then a clean submission - acknowledged once,
    applied twice: "+" prepended to OLD gives "++OLD" *)
